@@ -23,7 +23,11 @@ Semantics (DESIGN.md appendix A, operator docstrings in transform.py):
   assign   the input record, persistently updated under the assign keys
   filter   keeps the record iff fn(*inputs) is truthy
   batch    every current output key (SELF if there is none) becomes the list
-           of <= k consecutive values; the rest of the record is dropped
+           of <= k consecutive values; the rest of the record is dropped.  The
+           current output keys are a *set*: when the fresh record depends on
+           the order in which they are written (Index and mapping keys mixed
+           at one level, [1] before [0], a key and a path below it), the
+           result is unspecified (`Result.unspecified`), not an error
   sink     write(*inputs, **kw_inputs) once per record, record forwarded
            untouched, close() when the stream ends
 "Current output keys" = keys produced since the last record-replacing operator
@@ -45,6 +49,8 @@ Python calls falsy; it is used by the *deviations* only.
 """
 from __future__ import annotations
 
+import itertools
+
 from vmc.oracles import tree_ref as ref
 
 SELF, SKIP, MISSING, Lit = ref.SELF, ref.SKIP, ref.MISSING, ref.Lit
@@ -52,6 +58,10 @@ SELF, SKIP, MISSING, Lit = ref.SELF, ref.SKIP, ref.MISSING, ref.Lit
 
 class RunError(Exception):
   """The reference says: processing this record is an error."""
+
+
+class Unspecified(Exception):
+  """The reference has no opinion on this run (see `batch`)."""
 
 
 # ---- key spec helpers --------------------------------------------------------
@@ -291,12 +301,26 @@ class _Stage:
 
   def _emit_batch(self):
     cols, self.columns = self.columns, None
-    base = MISSING
-    try:
-      for k, c in zip(self.batch_keys, cols):
-        base = ref.set_(base, k, c)
-    except ref.RefError as e:
-      raise RunError(f'batch output: {e}') from e
+
+    def build(pairs):
+      base = MISSING
+      try:
+        for k, c in pairs:
+          base = ref.set_(base, k, c)
+      except ref.RefError as e:
+        return None, f'batch output: {e}'
+      return base, None
+    pairs = list(zip(self.batch_keys, cols))
+    base, err = build(pairs)
+    if len(pairs) > 1:
+      for perm in itertools.permutations(pairs):
+        other, oerr = build(perm)
+        if (err is None) != (oerr is None) or (
+            err is None and not ref.same(base, other)):
+          raise Unspecified('batch: the record depends on the order of the '
+                            'current output keys')
+    if err is not None:
+      raise RunError(err)
     return [base]
 
   def flush(self):
@@ -311,6 +335,7 @@ class Result:
     self.outputs = []        # emitted records, in order
     self.error = None        # None | description of the first error
     self.error_at = None     # index of the input record being processed | 'end'
+    self.unspecified = False  # the reference has no opinion on this run
     self.sinks = {}          # op index -> SinkLog
 
 
@@ -361,6 +386,8 @@ def run(program, stream, dev=frozenset()):
     res.error_at = None
   except RunError as e:
     res.error = str(e)
+  except Unspecified as e:
+    res.error, res.unspecified = str(e), True
   for log in res.sinks.values():
     log.closed = 1
   return res
